@@ -99,13 +99,14 @@ def run(ctx):
     # the transcription of the code as it is (a counterexample here is a statement about
     # the specification; it is replayed on the real functions below) and the case
     # generator run next to the exhaustive configurations
-    bg_f = Bg(ctx, "NtpTimeMC", "NtpTime_faithful.cfg", workers=2, timeout=600, allow_violation=True, tag="faithful")
+    bg_f = Bg(ctx, "NtpTimeMC", "NtpTime_faithful.cfg", workers=1, timeout=600, allow_violation=True, tag="faithful")
     bg_g = Bg(ctx, "NtpTimeMC", "NtpTime_gen.cfg" if q else "NtpTime_gendeep.cfg", workers=1, timeout=900, tag="gen")
 
     # 1. design level: the property section of NtpTime.tla with the repaired era
     #    unfolding must hold (the property is implementable by this algorithm)
+    #    (at most 8 TLC workers in total: 6 here + faithful + generator)
     for cfg in (["NtpTime_exh.cfg"] if q else ["NtpTime_deep.cfg", "NtpTime_deepns.cfg"]):
-        r = ctx.tlc("NtpTimeMC", cfg, timeout=900)
+        r = ctx.tlc("NtpTimeMC", cfg, workers=6, timeout=1200)
         ctx.log("TLC %s: %d distinct states in %.0fs, property section holds (ForwardOnlyEraUnfold=FALSE)" % (
             cfg, r["distinct"], r["wall_s"]))
     rf = bg_f.get()
